@@ -31,6 +31,7 @@ func specC03() *propertySpec {
 			{"C03-R6", "kind-tables: Make's reflect.Kind switch and integerKindToInfo agree with the Go types; range constructors store min/max in the right fields and assert min <= max", ruleC03R6},
 			{"C03-R7", "input-not-mutated: nothing reachable from a value/String method stores through a generator field or a package-level variable", ruleC15R3},
 			{"C03-R8", "non-nil-when-disallowed: ptrGen returns nil only on the false edge of a coin whose probability is the constant 1 unless allowNil", ruleC03R8},
+			{"C03-R9", "length-control: the fields of repeat are written only by newRepeat/more/reject; more forces continue below minCount and stop at maxCount; a forced stop is set only when count >= minCount, otherwise reject raises invalid data", ruleC03R9},
 		},
 	}
 }
@@ -59,6 +60,19 @@ func ruleC03R1(r *Run) {
 			rv := cp.onPath(p.res(ret, 0))
 			if rv == max {
 				return
+			}
+			// result of another integer core for the same max
+			core := rv
+			if e, ok := core.(*ssa.Extract); ok && e.Index == 0 {
+				core = e.Tuple
+			}
+			if c, ok := core.(*ssa.Call); ok {
+				switch p.calleeKey(c.Common()) {
+				case "genUintNNoReject", "genUintNUnbiased", "genUintNBiased":
+					if len(c.Common().Args) == 2 && p.resolve(c.Common().Args[1]) == max {
+						return
+					}
+				}
 			}
 			kx, ky := cp.key(rv), cp.key(max)
 			le, okLe := cp.known["("+kx+" <= "+ky+")"]
@@ -1040,4 +1054,73 @@ func ruleC03R8(r *Run) {
 		r.Check("(*ptrGen).value#nil", ret.Pos(), ok, "nil only through a coin whose non-nil probability is the constant 1 unless allowNil", "Ptr can return nil although allowNil is false: "+detail)
 	}
 	r.Floor("nil returns of ptrGen.value", n, 1)
+}
+
+func ruleC03R9(r *Run) {
+	p := r.P
+	owners := map[string]bool{"newRepeat": true, "(*repeat).more": true, "(*repeat).reject": true}
+	n := 0
+	for _, fa := range p.fieldAccesses("repeat") {
+		if fa.Kind == "read" {
+			continue
+		}
+		n++
+		name := p.fnName(fa.Fn)
+		r.Check(name+"#repeat."+fa.Field+"."+fa.Kind, fa.Instr.Pos(), owners[name] && fa.Kind == "write", "length-control state is written by the repeat type itself",
+			"repeat."+fa.Field+" is written ("+fa.Kind+") in "+name+": the minimum/maximum length guarantees of more()/reject() rely on invariants that only they maintain (e.g. forceStop ⇒ count >= minCount)")
+	}
+	r.Floor("stores to repeat fields", n, 12)
+	if fn := r.MustFn("(*repeat).reject"); fn != nil {
+		nFS := 0
+		for _, fa := range p.fieldAccesses("repeat") {
+			if fa.Fn != fn || fa.Field != "forceStop" || fa.Kind != "write" {
+				continue
+			}
+			nFS++
+			facts := p.facts(fa.Instr)
+			r.Check("(*repeat).reject#forceStop", fa.Instr.Pos(), holds(facts, "$r.count", ">=", "$r.minCount"), "a forced stop is requested only when the minimum count is already reached", "reject sets forceStop without count >= minCount: a collection can end below its minimum length")
+		}
+		r.Floor("forceStop stores in reject", nFS, 1)
+		okPanic := false
+		for _, b := range fn.Blocks {
+			for _, in := range b.Instrs {
+				if pn, ok := in.(*ssa.Panic); ok && p.typeStr(panicType(pn)) == "invalidData" && holds(p.facts(pn), "$r.count", "<", "$r.minCount") {
+					okPanic = true
+				}
+			}
+		}
+		r.Check("(*repeat).reject#give-up", fn.Pos(), okPanic, "too many rejections below the minimum count raise invalid data", "reject no longer raises invalidData when the minimum count cannot be reached")
+	}
+	if fn := r.MustFn("(*repeat).more"); fn != nil {
+		// pCont phi: 1 under count < minCount, 0 under count >= maxCount
+		for _, cs := range p.callsTo(fn, "flipBiasedCoin") {
+			ph, ok := p.resolve(cs.Arg(1)).(*ssa.Phi)
+			if !ok {
+				r.Fail("(*repeat).more#pCont", cs.Instr.Pos(), "continue probability is not a choice between forced and free: "+p.expr(cs.Arg(1)))
+				continue
+			}
+			okMin, okMax := false, false
+			for i, e := range ph.Edges {
+				pred := ph.Block().Preds[i]
+				facts := p.facts(pred.Instrs[len(pred.Instrs)-1])
+				c, isC := p.resolve(e).(*ssa.Const)
+				if holds(facts, "$r.count", "<", "$r.minCount") {
+					okMin = isC && p.expr(c) == "1"
+				} else if holds(facts, "$r.count", ">=", "$r.maxCount") {
+					okMax = isC && p.expr(c) == "0"
+				}
+			}
+			r.Check("(*repeat).more#below-min-continues", cs.Instr.Pos(), okMin, "below minCount the continue probability is the constant 1", "below minCount more() does not force continuation: collections can be shorter than their minimum")
+			r.Check("(*repeat).more#at-max-stops", cs.Instr.Pos(), okMax, "at maxCount the continue probability is the constant 0", "at maxCount more() does not force a stop: collections can exceed their maximum")
+		}
+	}
+	if fn := r.MustFn("flipBiasedCoin"); fn != nil {
+		ok := false
+		for _, ret := range returnsOf(fn) {
+			if bo, isB := p.resolve(p.res(ret, 0)).(*ssa.BinOp); isB && bo.Op == token.GEQ && p.expr(bo.Y) == "(1 - $p)" {
+				ok = true
+			}
+		}
+		r.Check("flipBiasedCoin#extremes", fn.Pos(), ok, "coin = f >= 1-p: p=1 always true (f >= 0), p=0 always false (f < 1)", "flipBiasedCoin is no longer f >= 1-p: probabilities 0 and 1 are not certain")
+	}
 }
